@@ -267,12 +267,27 @@ func (x *gsPathExec) funcDeclOf(call *ast.CallExpr) *ast.FuncDecl {
 	case *ast.Ident:
 		id = f
 	}
-	if id == nil || !gsPathInline[id.Name] {
+	if id == nil {
 		return nil
 	}
 	fn, ok := x.p.TypesInfo.Uses[id].(*types.Func)
 	if !ok || fn.Pkg() != x.p.Types {
 		return nil
+	}
+	if !gsPathInline[id.Name] {
+		// round 6: a helper of the same package that is HANDED THE SAMPLE (an extracted piece of a shoot function) is inlined
+		// like the three named ones; every other callee stays opaque
+		takesSample := false
+		if sig, ok := fn.Type().(*types.Signature); ok {
+			for i := 0; i < sig.Params().Len(); i++ {
+				if gsIsSamplePtr(sig.Params().At(i).Type()) {
+					takesSample = true
+				}
+			}
+		}
+		if !takesSample {
+			return nil
+		}
 	}
 	for _, f := range x.p.Syntax {
 		for _, d := range f.Decls {
@@ -749,7 +764,7 @@ func gsPaths(t *tr, b *strings.Builder) {
 			if sp.pkg == t.pkg.PkgPath {
 				p = t.pkg
 			} else {
-				p = load(sp.pkg)
+				p = grpcstatusLoad(sp.pkg)
 			}
 			cache[sp.pkg] = p
 		}
